@@ -19,7 +19,7 @@ def _apply(scratch, patch):
     return r.returncode == 0, r.stdout[-400:]
 
 
-def _corpus(pid, verif):
+def _corpus(pid, verif, crates=()):
     out = []
     for p in sorted(glob.glob(os.path.join(verif, "selftest", "mutants", pid, "*.diff"))):
         exp = None
@@ -27,8 +27,19 @@ def _corpus(pid, verif):
         if os.path.exists(e):
             exp = json.load(open(e)).get("expect")
         out.append(("mutant", os.path.relpath(p, verif), p, exp))
-    for p in sorted(glob.glob(os.path.join(verif, "selftest", "benign", pid, "*.diff"))):
-        out.append(("benign", os.path.relpath(p, verif), p, None))
+    # benign rewrites: this property's own, plus those written for other properties that touch a crate this
+    # property analyses (a rewrite of the bulkhead must stay silent for C01, C07 and C20 alike)
+    mine = set(crates or [])
+    for p in sorted(glob.glob(os.path.join(verif, "selftest", "benign", "*", "*.diff"))):
+        own = os.path.basename(os.path.dirname(p)) == pid
+        touched = set()
+        if not own:
+            with open(p) as fh:
+                for line in fh:
+                    if line.startswith("+++ b/crates/"):
+                        touched.add(line.split("/")[2].replace("-", "_"))
+        if own or (mine and touched & mine) or (crates is None):
+            out.append(("benign", os.path.relpath(p, verif), p, None))
     for m in sorted(glob.glob(os.path.join(verif, "seeded", "*", "*", "meta.json"))):
         meta = json.load(open(m))
         det = meta.get("detected_by", {})
@@ -56,7 +67,12 @@ def run(pid, verif, repo, work, only=None):
     base_fail = _failed(mod, pid, Facts(base_dir, "FULL"), runner)
     stwork = os.path.join(work, "selftest")
     os.makedirs(stwork, exist_ok=True)
-    for (kind, name, path, expect) in _corpus(pid, verif):
+    crates = set(getattr(mod, "CONFIG_CRATES", []))
+    if getattr(mod, "CRATE", None):
+        crates.add(mod.CRATE)
+    if pid == "C20":
+        crates = None          # C20 analyses every crate
+    for (kind, name, path, expect) in _corpus(pid, verif, crates):
         if only and only not in name:
             continue
         t0 = time.time()
